@@ -172,6 +172,8 @@ def load_known():
 def replay_file(mod, path):
     with open(path) as fh:
         r = json.load(fh)
+    if "shape" not in r and hasattr(mod, "replay"):
+        return mod.replay(r)
     _, real = _libs()
     fails, obs, err = H.run_real(mod.body, real, r["shape"], H.unjson(r["inputs"]))
     print(json.dumps({"failures": fails, "error": err, "observations": H.jsonable([(k, H.plain(v)) for k, v in obs])}, indent=1, default=repr))
@@ -309,7 +311,7 @@ def report(mod, prop, tier, seed, units, results, wall, extra):
         "coverage": cov,
         "assumptions": list(getattr(mod, "ASSUMPTIONS", [])) + list(extra.get("assumptions", [])),
         "wall_s": round(wall, 2),
-        "violations": len(new),
+        "violations": len(new) + int(extra.get("violations", 0)),
     }
     os.makedirs(EVIDENCE_DIR, exist_ok=True)
     with open(os.path.join(EVIDENCE_DIR, f"{prop}.json"), "w") as fh:
@@ -317,7 +319,7 @@ def report(mod, prop, tier, seed, units, results, wall, extra):
     print(
         f"[{prop} {tier}] units={len(results)} paths={tot.paths} obligations={tot.obligations} discharged={tot.discharged} "
         f"queries={tot.queries} solver_s={tot.solver_s:.1f} validated={validated} wall={wall:.1f}s "
-        f"new_violations={len(new)} known={len(known_hit)} inconclusive={len(inconclusive)} engine_faults={len(faults)}"
+        f"new_violations={len(new) + int(extra.get('violations', 0))} known={len(known_hit)} inconclusive={len(inconclusive)} engine_faults={len(faults)}"
     )
     if new:
         return 1
